@@ -586,6 +586,12 @@ func c45Gen(c *Ctx, st *c45State) {
 			if !st.ordered && (sg.K == skScan || sg.K == skDedup || sg.K == skBatch) {
 				sg.K = skMap // order-sensitive stages have no determined result behind an unordered ParallelMap
 			}
+			if c.Variant == "small" && sg.K == skBatch {
+				// small variant (stream demand window 8/2): every consumer signals demand in small portions, so the
+				// known Batch-ignores-demand defect (lost window, oversize batches, stall) would surface under many
+				// class/component pairs; Batch stays a stock-variant subject
+				sg.K = skFilter
+			}
 		}
 		timed := false
 		switch sg.K {
@@ -1702,7 +1708,7 @@ func c46Finish(c *Ctx) {
 }
 
 func init() {
-	Register(&Scenario{Prop: "C45", Name: "linear-pipelines", Quick: 1200, Thorough: 120000,
+	Register(&Scenario{Prop: "C45", Name: "linear-pipelines", Variants: []string{"stock", "small"}, Quick: 1200, Thorough: 120000,
 		EstSteps: 6000, MaxSteps: 1500000, MaxIdle: 2 * time.Hour,
 		Real: strmReal, Stub: strmStub, Run: c45Run, Finish: c45Finish})
 	Register(&Scenario{Prop: "C46", Name: "junctions", Quick: 2500, Thorough: 250000,
